@@ -29,12 +29,19 @@ def _c(pid, text, note, ref=None, technique=None):
     CLAIMED[pid] = dict(technique=technique or TECH, level_text=text, level_note=COMMON_NOTE + note, design_ref=ref or f"6 {pid}, 12")
 
 _c("C02",
-   "36 theorems (Props/C02.lean): the segment-copy loop equals the parity mosaic with strict `<`; under independent Bernoulli(x_k) crossover "
-   "indicators the pairwise/adjacent/segregation/joint/independence laws hold for all marker counts and vectors; map-derived probabilities are 1/2 at "
-   "chromosome starts and Haldane composes over any number of intervals (over R); push-forward from grid-uniform draws; weak law for repeated meioses. "
-   "Correspondence: six meiosis functions + seven protocols with scripted and crafted genuine generator states (ties, 0, 1-2^-53).",
-   "Generator contract (independent draws uniform on k/2^53) is trusted; statistical runs at fixed seeds with a Bernstein budget are supporting evidence only. "
-   "Partial: draws_pushforward_exact_partial, spec_iff_model_partial. Kosambi composition for non-adjacent markers not covered.")
+   "82 theorems (Props/C02.lean): the segment-copy loop of mat_meiosis AND of its twin dense_meiosis equals the parity mosaic with strict `<`; under independent "
+   "Bernoulli(x_k) crossover indicators the pairwise/adjacent/segregation/joint/independence/parity laws hold for all marker counts and vectors; map-derived "
+   "probabilities are 1/2 at chromosome starts (any map function, sorted or merely grouped labels; the numpy.unique loop proved equal to the model) and Haldane composes "
+   "over any number of intervals (over R); the correct non-adjacent law for any map function, Kosambi's failure proved; push-forward from grid-uniform draws with a total-variation "
+   "bound m*2^-53; weak law for repeated meioses; through C01's protocol model: every meiosis of every protocol is a single-meiosis instance on its own draw rows, the number of draw "
+   "matrices consumed, and the recombination law after ANY number of selfing generations (one copy, the two copies of a plant, doubled haploids) with closed form and the "
+   "Haldane-Waddington limit; from_gmod's doubled haploids. Spec oracles (cell-wise, partly observable provenance, chromosome starts) proved sound and characterised exactly. "
+   "Correspondence: six meiosis functions + seven protocols (every progeny cell incl. selfing, second cycles) + from_gmod with scripted, crafted-genuine and recorded generators; "
+   "crossover probabilities from both map classes, both map functions, five entry points.",
+   "Generator contract (independent draws uniform on k/2^53) is trusted; statistical runs (fixed and generated seeds, Bernstein budget 1e-12 per statistic, dense panels, selfing depth 1-4, "
+   "identical-gamete lags) are supporting evidence and decide only when a tree consumes randomness in another pattern than the model. C01's Mating.mate is the protocol model (tied by C01's run). "
+   "Partial (hypothesis proved necessary by a counterexample, full-strength replacement in the file): spec_iff_model_partial, spec_obs_iff_model_partial, draws_pushforward_exact_partial, "
+   "gdist1g_loop_eq_model_partial. Inside a chromosome the xoprob Spec compares with libm exp/tanh in floating point (1e-12). No open finding.")
 _c("C11",
    "86 theorems (Props/C11.lean): Haldane/Kosambi zero, limit 1/2, range, (strict) monotonicity, both inverse directions over R on [0,inf], "
    "round-trip conditioning and the same laws under any monotone rounding; pairwise distances symmetric, zero diagonal, additive, +inf exactly across "
@@ -124,14 +131,11 @@ _c("C18",
    "guard_refusal_prerepair_counterexample and its exact characterisation (fewer_blocks_iff_empty_bin_prerepair, unwritten_columns_prerepair). "
    "No open finding (D10 fixed in /repo).")
 _c("C09",
-   "29 theorems (Props/C09.lean) over any ordered field, all matrices/sizes/ploidies: every statistic equals its textbook definition on the raw calls; afreq in [0,1] and exactly 0/1 iff all copies equal; afixed = not apoly (both classes); ploidy+1 genotype classes "
-   "summing to ntaxa; all 13 outputs of a phased matrix equal those of its projection; div_form_exact: for ANY monotone rounding fixing 0,1,e,1-e, rnd(c/m) is 1 iff c=m and 0 iff c=0 (m*e <= 1), lifted through afreq/afixed/apoly and dtype casts.",
-   "numpy integer sums / one correctly rounded division / casts abstracted by RoundingContract. Partial: afreq_rounded_exact_partial, pafreq_rounded_exact_partial, afreq_cast_exact_partial (bound ploidy*ntaxa*halfulp <= 1 is tight: counterexample). "
-   "The pre-repair reciprocal form and nphase+1 classes are kept as Float/decide counterexamples (D1/D16, D2 - fixed in /repo).")
+ "53 theorems (Props/C09.lean) over any ordered field, all matrices / sizes / ploidies / phase counts: every statistic equals its textbook definition on the raw calls; afreq in [0,1] and exactly 0/1 iff all copies equal; afixed = not apoly (both classes); ploidy+1 genotype classes summing to ntaxa; all 13 outputs of a phased matrix equal those of its projection; the literal {-1,m,1} column loop equals its closed form; div_form_exact for ANY monotone rounding fixing 0,1,e,1-e, instantiated by the concrete IEEE models roundBin t (t=52 binary64, 23 float32, 10 float16 - all compared bit for bit with numpy) and lifted through afreq/afixed/apoly/tafreq/maf and dtype casts; integer dtypes = truncation (cast frequency is 1 iff fixed at 1); spec_sound (unphased; phased + projection) and spec_iff (boundary clauses) for the 18-clause Spec oracle; memo soundness for an object-with-cache model iff every write invalidates.",
+ "numpy integer sums, the correctly rounded division and the casts are entered through models compared bit for bit (float64/32/16) or exactly (integer casts) on every case. Partial, size bound ploidy*ntaxa*halfulp <= 1 proved tight (rounded_exact_full_statement_counterexample, ieee_size_bound_counterexample, narrow_float_size_bound_counterexample): afreq_rounded_exact_partial, pafreq_rounded_exact_partial, afreq_cast_exact_partial, afreq_ieee_exact_partial, afreq_float32/float16_exact_partial, afreq_int_cast_exact_partial, afreq_int64_exact_partial, tafreq_maf_ieee_exact_partial, gtfreq_div_form_exact_partial; in an integer dtype the '= 0 iff no copy' half is false for every implementation (afreq_int_cast_zero_half_counterexample). Stateful single-object histories, layouts, metadata, HDF5 round trips: harness kind history; statelessness itself: the cache model. D1/D16, D2 fixed in /repo (kept as counterexamples); no open finding. Observation: gtfreq uses (1/n)*count (patch proposed).")
 _c("C10",
-   "13 theorems (Props/C10.lean): lsl <= gebv(member) <= usl and collapse when all loci are fixed, for every population and effect vector (phased and unphased); every one of the seven mating protocols (literal segment-copy loop, any draws, any nself, "
-   "any counts) and select_taxa is a closed step (every progeny allele at locus j occurs in the parents at j); hence along EVERY closed history usl never increases, lsl never decreases, every descendant lies within every ancestor's limits, lost alleles stay lost.",
-   "Partial: limits_rounded_exact_partial (float comparisons p>0, p>=1 agree with exact ones for ploidy*ntaxa <= 2^53). Z@u and BreedingValueMatrix scale/unscale compared with tolerance; draws recorded and replayed for matings up to 900 uniforms.")
+ "26 theorems (Props/C10.lean): lsl <= gebv(member) <= usl and collapse when all loci are fixed, for every population (phased with any number of phases, unphased of any ploidy), effect vector, trait and fixed effects (unscaled form); each of the seven mating protocols (literal segment-copy loop, any draws, nself, counts), select_taxa and IN-PLACE culling is a closed step; marker order is preserved through mating (tied to C01.metadata_carried_over); hence along EVERY closed history - phased, and unphased of any ploidy at dosage level - usl never increases, lsl never decreases, every descendant lies within every ancestor's limits, lost alleles stay lost; spec_sound of the trajectory Spec for both kinds of history, spec_iff of the step oracles.",
+ "Partial: limits_rounded_exact_partial, limits_ieee_exact_partial, limits_rounded_exact_phased_partial (ploidy*ntaxa <= 2^53; bound necessary: limits_rounded_full_statement_counterexample). Z@u and BreedingValueMatrix scale/unscale compared with tolerance 1e-9; draws recorded and replayed for matings up to 900 uniforms (3600 scripted); mating exists for diploids only, so non-diploid histories are selection-only; limits also observed through usl(Z)/lsl(Z) with the default ploidy for diploids. D1 fixed in /repo; no open finding.")
 _c("C15",
    "82 theorems (Props/C15.lean) over any ordered field and ANY sqrt function unless a part of its contract is named: unscale(from_numpy(raw)) = raw for every matrix incl. constant, NaN-bearing, all-NaN traits and 0 taxa; NaN stays NaN and does not influence other taxa; "
    "stored traits are centred with unit variance, a constant trait has location = the constant and scale 1 for EVERY sqrt (constancy is read off the data since the fix of D26); tmax/tmin/trange/tmean/tstd/tvar/targmax/targmin (unscale=True) equal numpy's on the raw trait, "
@@ -178,8 +182,8 @@ _c("C03",
    "Repairs exist as patches/C03_D14.diff, C03_D14b.diff, C03_D17b.diff, C03_D27.diff; the repaired models are proved (square_*_repaired_*, square_taxa_trait_repaired_history_attached) and the patched tree passes the check in repair-validation mode (C03_REPAIRED=1: 4840 cases, corr and Spec hold, no finding consulted). "
    "DenseBreedingValueMatrix in-place append/incorp/concat are C15's (D23/D24); progeny covariance classes (two square bundles, 4-D/5-D) not exercised. D3, D4, D17, D28 fixed in /repo.")
 _c("C12",
-   "57 theorems (Props/C12.lean) over any field of characteristic 0 (ordered field where an order is needed; R for Haldane): the chunked double sums tile [lst,lsp) for every step (exact multiples and one-marker groups as explicit theorems), so every cell is independent of `mem`; the loops of from_algmod as written (zeros, +=, *= 0.25, mirror loop; the genic loops over numpy.empty) compute the closed forms and write every cell; for the two-, three-, four-way and dihybrid schemes, ALL parent tuples (self hybrids included) and EVERY finite selfing depth the cell equals the covariance of doubled-haploid values obtained by exhaustive enumeration of all crossover masks of all meioses (second-moment selfing recursion proved: nself > 0 is a theorem); rprob_filial / cov_D1s / cov_D2s / cov_D1st / cov_D2st closed forms for every k, monotone, geometric limit; nself = inf is the limit with explicit error term; genic matrices = free-recombination enumeration (all four classes, diagonal included); symmetry in exchangeable parents and in the trait pair, zero for identical parents, taxa equivariance, variances >= 0, progeny mean; the cross map lists exactly the (strictly) increasing tuples; every row of the UC matrix for ANY list of configurations = mean + i*sqrt(enumerated variance); with Haldane positions the code's pairwise r composes as required (eq_enum_haldane over R); Spec oracle spec_iff / spec_sound; pair_marginal justifies the pairwise oracle.",
-   'Trusted: independence of crossover indicators (C01/C02), numpy.exp, the normal pdf/ppf of the selection intensity, IEEE arithmetic as exact arithmetic to 1e-12 of the natural scale. Spec = equality with enumeration computed three ways (Lean covOf up to 11 mask bits; exact Fraction enumerator; pairwise enumerator for deep selfing / many markers / float positions). No partial theorem. D15, D30-D33 fixed in /repo (pre-repair counterexamples kept). Open finding D37: _calc_uc takes sqrt of a variance that rounding left below zero -> NaN (Float witness uc_sqrt_of_rounded_variance_counterexample; one-line patch proposed). Not covered: the four pcvmat *ProgenyGenicCovarianceMatrix classes (marked UNDER CONSTRUCTION, not constructible).')
+   "57 theorems (Props/C12.lean) over any field of characteristic 0 (ordered field where an order is needed; R for Haldane): the chunked double sums tile [lst,lsp) for every step (exact multiples and one-marker groups as explicit theorems), so every cell is independent of `mem`; the loops of from_algmod as written (zeros, +=, *= 0.25, mirror loop; the genic loops over numpy.empty) compute the closed forms and write every cell; for the two-, three-, four-way and dihybrid schemes, ALL parent tuples (self hybrids included) and EVERY finite selfing depth the cell equals the covariance of doubled-haploid values obtained by exhaustive enumeration of all crossover masks of all meioses (second-moment selfing recursion proved: nself > 0 is a theorem); rprob_filial / cov_D1s / cov_D2s / cov_D1st / cov_D2st closed forms for every k, monotone, geometric limit; nself = inf is the limit with explicit error term; genic matrices = free-recombination enumeration (all four classes, diagonal included); symmetry in exchangeable parents and in the trait pair, zero for identical parents, taxa equivariance, variances >= 0, progeny mean; the cross map lists exactly the (strictly) increasing tuples; every row of the UC matrix for ANY list of configurations, with the repaired cell formula mean + i*sqrt(max(var,0)), equals mean + i*sqrt(enumerated variance) (the clip is the identity by variance_nonneg); with Haldane positions the code's pairwise r composes as required (eq_enum_haldane over R); Spec oracle spec_iff / spec_sound; pair_marginal justifies the pairwise oracle.",
+   "Trusted: independence of crossover indicators (C01/C02), numpy.exp, the normal pdf/ppf of the selection intensity, IEEE arithmetic as exact arithmetic to 1e-12 of the natural scale. Spec = equality with enumeration computed three ways (Lean covOf up to 11 mask bits; exact Fraction enumerator; pairwise enumerator for deep selfing / many markers / float positions). No partial theorem; the uc_def / ucmat_rows theorems assume crossover probabilities in [0,1]. D15, D30-D33 and D37 fixed in /repo (pre-repair counterexamples kept; D37: Float witness uc_sqrt_of_rounded_variance_prerepair_counterexample, Float example that the repaired expression returns the parental mean, regression case in the corpus, mutant that undoes the repair). Not covered: the four pcvmat *ProgenyGenicCovarianceMatrix classes (marked UNDER CONSTRUCTION, not constructible).")
 _c("C06",
    "51 theorems (Props/C06.lean): the sorting optimiser's k-prefix minimises c*sum(key) over all duplicate-free selections for ANY tie order numpy's argsort may return, is feasible, and satisfies the brute-force Spec oracle (optimum_spec_iff, sorting_spec_sound); both steepest-descent hill climbers and the older steepest-ascent copy terminate (proved, not assumed) for every evaluation function, keep soln++wrk a permutation, report the evaluation of the returned decision, and on exit no single exchange has a lexicographically smaller (cv, score) - exact comparison, every magnitude - which is exactly the Spec oracle (local_opt_spec_iff, hillclimb_spec_sound); sampling is feasible iff replace=False; crossover, mutation, memetic neighbourhoods, MutatorA/B.hillclimb and the stochastic climb preserve feasibility for every draw, hence every individual reachable through ANY history of operators and arbitrary re-selection is feasible; the Solution assembled from res.X/F/G/H of ANY final member set is truthful row by row, signed constraint values included (ga_solution_truthful, truthful_spec_iff; exact optimisers: exact_solution_truthful); non-domination oracle characterised (nondominated_spec_iff); integer operators: clamp + round-half-even stays integral and inside integer bounds for every raw value and negative bounds (integer_ops_in_bounds, full).",
    "pymoo's evolutionary loop and SBX/PM arithmetic before the final clamp are not modelled: that each returned member carries the vectors Problem._evaluate handed over, and mutual non-domination of what the 16 optimiser classes return, are relational checks (Lean Spec on every returned Solution, c06.assemble on the recorded res arrays) on every run; NSGA-III reference directions not modelled; statelessness across calls (histories: re-assigned weights / candidate set / bounds, released problem objects, edited Solutions) is correspondence + Spec only. numpy argsort returns some sorting permutation; np.random draws inside pymoo_addon recorded through a proxy module and replayed through the model. Partial: integer_round_in_bounds_partial (bare rounding; necessity by integer_round_without_clamp_counterexample), evaluate_batch_partial (elementwise=True; D42 counterexample), hillclimb_local_opt_violation_key_partial (penalty-style constraint functions; D41 counterexample). Findings: D41 (climbers rank by the raw sum of signed constraint values), D42 (Problem._evaluate vectorised branch `v *args`), patches proposed. D6, D34, D35 fixed in /repo.")
